@@ -84,7 +84,7 @@ def h_levinson_parcor(ctx, cfg):
   p = cfg["p"]
   n = cfg.get("n", p + 1)                     # lags given; the order asked for may be >= n (zero extension)
   given = ctx.reals("r", n)
-  r = list(given) + [0] * (p + 1 - n)
+  r = (list(given) + [0] * (p + 1 - n))[:p + 1]
   # reference Levinson recursion
   a = [1]; E = r[0]; ks = []
   try:
@@ -167,6 +167,8 @@ def tasks(tier, seed):
   for p in ((1, 2) if not big else (1, 2, 3)):
     T.append(("h_levinson_parcor", {"p": p}, {"optional": p >= 3}))
   T.append(("h_levinson_parcor", {"p": 2, "n": 2}))       # order == len(lags): zero extension
+  T.append(("h_levinson_parcor", {"p": 0}))               # order 0: no reflection coefficient, error = r[0]
+  T.append(("h_levinson_parcor", {"p": 0, "n": 2}))       # ... asked for explicitly on a longer lag list
   if big: T.append(("h_levinson_parcor", {"p": 3, "n": 2}, {"optional": True}))
   for real, pairs in ((1, 0), (2, 0), (0, 1)):
     T.append(("h_stable", {"real": real, "pairs": pairs}))
